@@ -951,6 +951,13 @@ class Database:
                     data = (
                         JaggedArray(temp, paramDef.name) if jagged else np.array(temp)
                     )
+                    if not jagged and data.dtype.kind in "US":
+                        # numpy turns numbers next to strings into strings without complaint
+                        if not all(np.asarray(x).dtype.kind in "US" for x in temp):
+                            raise TypeError(
+                                "Cannot write {} to the database: it mixes strings with other "
+                                "data.".format(paramDef.name)
+                            )
                     del temp
 
             # - Check to see if the array is jagged. If so, flatten, store the data offsets and
